@@ -492,3 +492,59 @@ entry("C05", modules=["contracts.c05_decomp"],
                   "soundness per parameter of the three cached parsers (fails for renorm: finding 6b), isometry flags per "
                   "(method, absorb) against the real drivers (fail for polar_right / polar_left / cholesky: finding 10), "
                   "consistency of _RETURNS_*_ABSORBS and _ABSORB_TRANSPOSE_MAP with _do_absorb.")
+_TG, _T1 = "quimb/tensor/tnag/tebd.py", "quimb/tensor/tn1d/tebd.py"
+entry("C11", modules=["contracts.c11_tebd"],
+      E1=[f"{_TG}::trotter_schedule", f"{_TG}::LocalHamGen.__init__", f"{_T1}::LocalHam1D.__init__", f"{_T1}::TEBD.sweep",
+          f"{_T1}::TEBD._get_gate_from_ham", f"{_T1}::TEBD.choose_time_step", f"{_T1}::TEBD._compute_sweep_dt_tol",
+          f"{_T1}::TEBD.step", f"{_T1}::TEBD.update_to", f"{_T1}::TEBD.at_times"],
+      LEMMAS=True,
+      TRUSTED=["leaf: gate_split_(U, where=(a,b), absorb) applies U on sites (a,b) and splits; absorb='right' leaves site a a "
+               "left isometry, absorb='left' leaves site b a right isometry; the truncation is optimal only when the "
+               "orthogonality centre is on the two sites (checked by the C08 / C11 bounded drivers)",
+               "leaf: TEBD._get_gate_from_ham / LocalHamGen.get_gate_expm return a function of (exponent, sites) (cache "
+               "keyed on object identity: the recycled-id hazard noted in DESIGN section 5 is not modelled)",
+               "C08 contracts of left/right_canonize(_site) (proved there) are used as callees of TEBD.sweep",
+               "MERGE: two sweeps of the same direction compose to one with the summed fraction, Sw(d,a,Sw(d,b,S)) = "
+               "Sw(d,a+b,S) -- this is the meaning given to 'modulo merging equal neighbours' (gates of one sweep act on "
+               "disjoint bonds, except (L-1,0) and (0,1) on odd periodic chains where the identity holds only to first order)",
+               "definitional recursions RS / LS / Sw / Tm / Em / Dm of the spec functions (ground instances)",
+               "leaf: sorted(ts) is the ascending rearrangement of ts; Progbar(ts) iterates ts unchanged; a real power of "
+               "a positive base is positive; x ** k is uninterpreted for k > 4 (expanded products for k <= 4)",
+               "leaf: LocalHamGen cached helpers: _flip_cached exchanges the two sites (linear), _add_cached / _div_cached "
+               "are the vector-space operations, _op_id_cached / _id_op_cached are kron(x, I) / kron(I, x) (linear), "
+               "_convert_from_qarray_cached keeps the operator; operators are elements of the free vector space over "
+               "their atoms (most general model of add / divide-by-scalar)",
+               "termination of update_to's while loop from 'the time advances by exactly _dt > 0 per iteration' (proved "
+               "as t == Tm(n)) by the Archimedean property of the reals (meta-argument)",
+               "4 ** (1/3) is the rational value of the double CPython computes"],
+      ASSUMPTIONS=["times / fractions are reals: t + (T - t) == T exactly",
+                   "TEBD: L >= 2 symbolic (periodic: L >= 3; the two-site ring, where (0,1) and (1,0) are the same stored "
+                   "term, is outside the domain); cyclic and imag enumerated; direction in {'right','left'}; explicit "
+                   "dt > 0 / tol > 0; the gauge clauses (mpsghost of C08) are stated for open chains only",
+                   "callers of sweep (step, update_to, at_times) track the gauge through the abstract flag g_centre (0: "
+                   "centre at site 0, 1: at L-1, 3: after an imaginary-time left sweep) that the body proof of sweep "
+                   "relates to the quantified isL / isR facts; in update_to / at_times the evolved state is summarised by "
+                   "spec functions of (order, step, number of steps)",
+                   "LocalHam1D.__init__: symbolic L >= 1 (periodic L >= 3), supplied H2 an arbitrary finite map on integer "
+                   "pairs; LocalHamGen.__init__: BOUNDED ENUMERATION of graphs (chains 2..8, rings 3..8, flipped keys, both "
+                   "orientations, star, triangle, 2x2 grid with tuple coordinates) x 5 kinds of H1, operators symbolic",
+                   "order 4: the identity s+s+(1-4s)+s+s = 1 is proved for all real s as a lemma (z3) and the code's "
+                   "multipliers are shown to have that shape; the Suzuki value itself is checked to cancel the third order "
+                   "term to 1e-15"],
+      BOUNDED_FOR={"TEBD.sweep": ["sweep", "TEBD"], "TEBD.step": ["step", "TEBD"], "TEBD.at_times": ["at_times", "TEBD"],
+                   "TEBD.update_to": ["update_to", "TEBD"], "trotter_schedule": ["trotter"],
+                   "LocalHamGen.__init__": ["LocalHam"], "LocalHam1D.__init__": ["LocalHam1D"]},
+      EXPLANATION="E1: trotter_schedule closed form for ALL numbers of layers (orders 1, 2, 4; symbolic sequences; "
+                  "palindrome / per-layer-sum / Suzuki lemmas); LocalHam1D.__init__ for symbolic L (map invariant: default "
+                  "term exactly on absent bonds (i,(i+1) mod L), i < L-1+cyclic); LocalHamGen.__init__ on enumerated graphs "
+                  "with symbolic operators (flip/merge of (b,a) keys, weight 1/num_pairs on factor pair.index(site), "
+                  "per-site weights sum to 1); TEBD.sweep for symbolic L: bond coverage (skolem bond: a right sweep puts "
+                  "exactly one gate of the requested fraction on every even bond (+(L-1,0) if cyclic and L odd), a left "
+                  "sweep on every odd bond (+(L-1,0) if cyclic and L even), nothing else), gate chain in order, queue "
+                  "logic (logical state advances by Sw(direction, fraction) modulo MERGE, empty after queue=False), gauge "
+                  "(centre on the sites of every gate_split_, centre at L-1 / 0 afterwards, imaginary-time "
+                  "renormalisation divides the centre); step / _compute_sweep_dt_tol / choose_time_step / "
+                  "_get_gate_from_ham; update_to over the reals (t' == T exactly, t == Tm(n) in the loop, last partial "
+                  "step in (0, _dt], error bound accumulates |H| dt^(order+1), queue empty afterwards); at_times (the j-th "
+                  "yield is a copy of the state at sorted(ts)[j], one yield per requested time). The gauge obligations "
+                  "FAIL on the unchanged tree (consecutive same-direction sweeps; left-sweep renormalisation site).")
